@@ -26,6 +26,9 @@ structure DState where
   cl : Cluster := { servers := [], l1s := [] }
   sp : C07.Spec := C07.Spec.empty
   mayEvict : Bool := false
+  /-- judge: all trigger names ever attached to a key; which clients have an L1 -/
+  ev : Key → List Key := fun _ => []
+  hasL1 : List Bool := []
 
 def tailStr (cl : Cluster) : String :=
   let sv := ";".intercalate (cl.servers.map fun s => s!"{s.size} {s.trigCount}")
@@ -201,19 +204,22 @@ def judgeLine (st : DState) (w : List String) : DState × String :=
   let (implw, casew) := splitAt ";" w
   let (res, _) := splitAt "|" implw
   match casew with
-  | ["reset"] => ({ st with sp := C07.Spec.empty }, if res == ["ok"] then "1" else "0 reset-answer")
+  | ["reset"] => ({ st with sp := C07.Spec.empty, ev := fun _ => [] }, if res == ["ok"] then "1" else "0 reset-answer")
   | ["cfg", sl, l1] =>
     match parseLimits sl, parseL1s l1 with
-    | some sl, some _ =>
-      ({ st with sp := C07.Spec.empty, mayEvict := sl.any (· > 0) },
+    | some sl, some l1 =>
+      ({ st with sp := C07.Spec.empty, mayEvict := sl.any (· > 0), ev := fun _ => [], hasL1 := l1.map (·.isSome) },
         if res == ["ok"] then "1" else "0 cfg-answer")
     | _, _ => (st, "0 bad-case")
   | _ =>
     match parseOp casew, parseOut res with
     | some op, some out =>
       match op with
-      | .fetch _ _ nowS k tg =>
-        (st, if Spec.answerOk st.sp nowS k st.mayEvict tg out then "1" else
+      | .fetch c _ nowS k tg =>
+        let bounded := match out with
+          | .hit _ ts _ _ => !tg || Spec.trigsBounded st.sp st.ev k (!(st.hasL1.getD c false)) ts
+          | _ => true
+        (st, if Spec.answerOk st.sp nowS k st.mayEvict tg out then (if bounded then "1" else "0 trigger-set-has-foreign-names") else
           match out with
           | .hit _ _ _ _ =>
             -- the predicate is `answerOk`; this only names the clause that failed
@@ -221,7 +227,8 @@ def judgeLine (st : DState) (w : List String) : DState × String :=
             else "0 fetch-returned-a-value-that-is-not-current"
           | _ => "0 live-entry-not-found")
       | .store _ _ k v ts d =>
-        ({ st with sp := Spec.ideal st.sp (.store k v ts d) }, if out == .done then "1" else "0 answer")
+        ({ st with sp := Spec.ideal st.sp (.store k v ts d), ev := Spec.everStep st.ev (.store k v ts d) },
+          if out == .done then "1" else "0 answer")
       | .rise _ t => ({ st with sp := Spec.ideal st.sp (.rise t) }, if out == .done then "1" else "0 answer")
       | .clear _ => ({ st with sp := Spec.ideal st.sp .clear }, if out == .done then "1" else "0 answer")
       | .remove _ _ => (st, if out == .done then "1" else "0 answer")
